@@ -9,7 +9,7 @@ from props import _family as F
 PROOF_MODULES = ["Jwt.Props.C12", "Jwt.Props.C05Ec"]
 PROP_MODULES = ["Jwt.Props.C12", "Jwt.Props.C05Ec"]
 PROP_FILES = ["Jwt/Props/C12.lean", "Jwt/Props/C05Ec.lean", "Jwt/Lemmas/EcFrame.lean"]
-GENERATED_FACT_THEOREMS = 3
+GENERATED_FACT_THEOREMS = 4
 CHECKER_CMD = "cd lean && lake build Jwt.Props.C12 && lake env lean <generated #print axioms file>"
 LEVEL_TEXT = ("Lean theorems over the generated jwt_ops_available table: set_crypto_ops(_t) succeeds iff the argument is exactly a compiled-in "
               "provider's name/id and otherwise leaves the current one untouched; JWT_CRYPTO handling; both ops tables parse JWKs with the same "
